@@ -16,7 +16,8 @@ from .. import alphabet as al, common, dsl, explore, rx
 from ..common import V
 from ..env import NS
 
-D = [-1, 0, 1, 2, 3, 5, None, True, False, 1.0, 0.0, '1']
+from ..env import IntSub  # noqa: E402
+D = [-1, 0, 1, 2, 3, 5, None, True, False, 1.0, 0.0, '1', IntSub(2)]
 INT = lambda v: isinstance(v, int) and not isinstance(v, bool)  # noqa: E731
 
 
@@ -152,6 +153,12 @@ def witness(text):
     return ws, K
 
 
+# other uses of the operand object between two evaluations of the same quantifier form
+DISTURB = ["Group(_o, True)", "_o.group(True)", "_o.capture('w')", "Capture(_o)", "_o + 'x'", "'x' + _o", "Either(_o, 'x')", "_o.optional(False)",
+           "_o.get_matches('ab ba')", "_o.has_match('')", "_o.get_pattern()", "Indefinite(_o, False)", "_o * 3", "_o.at_least_at_most(2, 3, False)",
+           "FollowedBy('x', _o)", "_o.match_at_start()"]
+
+
 def _task(descs):
     global _FORMS
     if _FORMS is None:
@@ -169,6 +176,7 @@ def _task(descs):
         wit = witness(X) if X else None
         if wit:
             cnt['operands_with_witness'] += 1
+        first = {}
         for name, args, gr, spell in _FORMS:
             cnt['forms'] += 1
             verdict, lo, hi = _bounds(name, args)
@@ -197,6 +205,7 @@ def _task(descs):
                 continue
             # (iii) spellings agree
             sigs = [(lab, dsl.outcome_sig(o)) for lab, o in outs]
+            first[(name, repr(args), gr)] = sigs[0]
             for lab, sig in sigs[1:]:
                 if sig != sigs[0][1]:
                     viol.append(V('C04|spelling|' + label + '|' + lab,
@@ -243,6 +252,33 @@ def _task(descs):
                         viol.append(V('C04|greed|' + label,
                                       f"{x.expr}: {name}{args} greedy={gr} -> {R!r} consumes {got} characters of {w!r}*{K}, expected {want * len(w)}",
                                       code_for(outs[0][0]) + f"\nimport re\nm = re.compile(str(r), 24).match({w!r} * {K})\nassert m and m.end() == {want * len(w)}"))
+        # (v) the operand is a value: after other uses of the same object every quantifier gives what it gave before
+        for dsrc in DISTURB:
+            try:
+                eval(dsrc, ns)
+            except Exception:  # noqa: BLE001
+                pass
+        cnt['reuse_checks'] = cnt.get('reuse_checks', 0)
+        for name, args, gr, spell in _FORMS:
+            if (name, repr(args), gr) not in first:
+                continue
+            lab0, sig0 = first[(name, repr(args), gr)]
+            lab, code, src = spell[0]
+            cnt['executions'] += 1
+            cnt['reuse_checks'] += 1
+            try:
+                o = ('ok', eval(code, ns))
+            except Exception as e:  # noqa: BLE001
+                o = ('raise', e)
+            sig = dsl.outcome_sig(o)
+            if sig != sig0:
+                viol.append(V('C04|reuse|%s%r|%s|%s' % (name, args, gr, x.expr),
+                              f"{x.expr}: {name}{args} gave {sig0!r} on the fresh operand but {sig!r} after the same object had been used in "
+                              f"{', '.join(DISTURB)}",
+                              'x = %s\ndef outcome(f):\n    try:\n        return (\'ok\', str(f()))\n    except Exception as e:\n        return (\'raise\', type(e).__name__)\n'
+                              'a = outcome(lambda: %s)\nfor d in %r:\n    try:\n        eval(d.replace(\'_o\', \'x\'))\n    except Exception:\n        pass\n'
+                              'b = outcome(lambda: %s)\nassert a == b, (a, b)' % (x.expr, src.replace('_o', 'x'), DISTURB, src.replace('_o', 'x'))))
+                break
     return viol, cnt
 
 
